@@ -18,6 +18,7 @@ import (
 	"github.com/projecteru2/core/types"
 
 	"verif/internal/stats"
+	"verif/internal/vengine"
 	"verif/internal/vt"
 	"verif/internal/world"
 )
@@ -31,17 +32,23 @@ type RaceCall struct {
 	Kind    string            `json:"kind"` // create|remove|dissociate|realloc|control|send|status|list|rpc-*
 	Deploy  *world.DeploySpec `json:"deploy,omitempty"`
 	Targets []int             `json:"targets,omitempty"`
-	FailN   int               `json:"fail_n,omitempty"` // create: make this many instances fail (engine scripted: inspect user mismatch not used; uses missing image)
+	// MissingImage: the image cannot be pulled on any node, so node preparation fails on every node of the plan
+	MissingImage bool `json:"missing_image,omitempty"`
+	FailN        int  `json:"fail_n,omitempty"` // create: make this many instances fail (engine scripted: inspect user mismatch not used; uses missing image)
 }
 
 type RaceCase struct {
 	Calls   []RaceCall `json:"calls"`
 	FailMod int        `json:"fail_mod"` // engine start fails for every FailMod-th created container (0 = never)
+	// RealNodes: the nodes are not test nodes: whether each is up is read from its heartbeat status
+	// (n0-n2 have one, n3 has none) — the path production nodes take through the store
+	RealNodes bool `json:"real_nodes,omitempty"`
 }
 
 func genC34(t *rapid.T) RaceCase {
 	var c RaceCase
 	c.FailMod = rapid.SampledFrom([]int{0, 2, 3, 1}).Draw(t, "failMod")
+	c.RealNodes = vt.Chance(t, "realNodes", 50)
 	n := rapid.IntRange(3, 8).Draw(t, "nCalls")
 	kinds := []string{"create", "create", "remove", "dissociate", "realloc", "control", "send", "status", "list", "rpc-create", "rpc-list", "rpc-remove", "rpc-status", "capacity", "podresource", "runandwait"}
 	for i := 0; i < n; i++ {
@@ -53,6 +60,9 @@ func genC34(t *rapid.T) RaceCase {
 			if vt.Chance(t, "failing", 50) {
 				// more instances than one node can start: the engine refuses the surplus on each node
 				call.FailN = rapid.IntRange(1, 3).Draw(t, "failN")
+			}
+			if call.Kind == "create" && vt.Chance(t, "missingImage", 25) {
+				call.MissingImage = true
 			}
 			call.Deploy = &d
 		}
@@ -146,8 +156,13 @@ func runC34(x *vt.Ctx, c RaceCase) *vt.Finding {
 		}
 	}
 	for i, n := range []string{"n0", "n1", "n2", "n3"} {
-		if err := w.AddNode(world.NodeSpec{Name: n, Pod: []string{"p0", "p1"}[i/2], CPU: 4, Memory: 2048 * MiB}); err != nil {
+		if err := w.AddNode(world.NodeSpec{Name: n, Pod: []string{"p0", "p1"}[i/2], CPU: 4, Memory: 2048 * MiB, NonTest: c.RealNodes}); err != nil {
 			return vt.Failf("harness:setup", "%v", err)
+		}
+		if c.RealNodes && n != "n3" {
+			if err := w.RawStore.SetNodeStatus(w.Ctx, &types.Node{NodeMeta: types.NodeMeta{Name: n, Podname: []string{"p0", "p1"}[i/2]}}, 600); err != nil {
+				return vt.Failf("harness:heartbeat", "%v", err)
+			}
 		}
 	}
 	// something to act on, spread over the nodes of both pods
@@ -180,6 +195,9 @@ func runC34(x *vt.Ctx, c RaceCase) *vt.Finding {
 					d.User = ""   // failing instances come from capacity exhaustion below
 					d.Count += 40 // cpu-bound / memory request exceeding some nodes: partial failures at allocation are refused as a whole; keep count moderate
 					d.Count -= 40
+				}
+				if call.MissingImage {
+					d.Image = vengine.MissingImagePrefix + "img:1"
 				}
 				w.Create(d)
 			case "remove":
@@ -263,6 +281,7 @@ func runC34(x *vt.Ctx, c RaceCase) *vt.Finding {
 	wg.Wait()
 	settle(w)
 	x.NonTrivial() // every batch runs >= 3 calls concurrently
+	x.Label("real-nodes=%v", c.RealNodes)
 	for _, call := range c.Calls {
 		x.Label("call=%s", call.Kind)
 	}
